@@ -37,6 +37,7 @@ TNext == /\ \/ Is("alloc") /\ Alloc(E.a, E.sz, E.k, E.ln)
             \/ Is("clear") /\ Clear(E.q)
             \/ Is("demote") /\ Demote
             \/ Is("report") /\ Query
+            \/ Is("inval") /\ Invalidate(E.a)
          /\ ObsOK
 \* executions are concatenated with reset lines (fresh detector)
 TReset == Is("reset") /\ bucket' = [i \in 0..P-1 |-> <<>>] /\ period' = "disabled" /\ stage' = 0
@@ -60,6 +61,7 @@ PNext == /\ \/ Is("alloc") /\ Alloc(E.a, E.sz, E.k, E.ln)
             \/ Is("clear") /\ Clear(E.q)
             \/ Is("demote") /\ Demote
             \/ Is("report") /\ Query
+            \/ Is("inval") /\ Invalidate(E.a)
 PSpec == TInit /\ [][PNext \/ TReset]_tvars
 Predict == (l > 1 /\ l - 1 >= atoi(IOEnv.FROM_LINE_N)) =>
               PrintT(<<"BEH", ToJson([line |-> l - 1, tot |-> [q \in Queries |-> Total(q)], res |-> res,
